@@ -50,7 +50,10 @@ def check(tier, seed, t0):
                     "result of [e, e], of the let-abstracted program, of two re-runs after unrelated evaluations and of three separate CLI "
                     "processes are compared. impl->spec: seeded random programs (sessions of C03's statement grammar, built-in calls of "
                     "C14, broadcasts of C11) run twice in process and, sampled, three times as CLI processes; heap-cell digests before / "
-                    "after every statement. Distinct non-trivial = distinct multi-statement or call programs + abstractable positions.",
+                    "after every statement; batches of mutually independent statements (every spelling of every unit converted to the first unit "
+                    "of its category, built-in calls) evaluated forwards, reversed and shuffled in one process and in separate CLI processes, and "
+                    "ten definitions of heap values made in either order and then passed to every built-in - no value may depend on the order. "
+                    "Distinct non-trivial = distinct multi-statement or call programs + abstractable positions.",
             "samples": [cases[0]["prog"], runs[0]["src"], runs[-1]["src"]],
             "states": r.distinct, "transitions": max(r.generated - r.distinct, 1),
             "traces_validated_against_impl": 1, "trace_events": len(events),
